@@ -131,13 +131,13 @@ theorem reach_of_below {nx : Nat → Option Nat} {l : List Nat} (hn : l.Nodup)
 
 /-- pcs that carry the value `erase` returns, and the node being erased is still the iterator's node -/
 def retOf : Pc → Option (Option Nat)
-  | .eDel _ o | .eMark _ o | .eBack _ o | .eNext _ o _ | .eUnl _ o _ _ | .eFix _ o _ _ | .eAlloc _ o | .eCons _ o _
+  | .eDel _ o | .eMark _ o _ | .eBack _ o _ | .eNext _ o _ _ | .eUnl _ o _ _ _ | .eFix _ o _ _ _ | .eAlloc _ o | .eCons _ o _
   | .eZh o _ | .pushStore (.erase o) _ _ | .pushCas (.erase o) _ _ | .eUnlock o => some o
   | _ => none
 
 /-- the node an `erase` in its first phase works on: still the iterator's node -/
 def curNode : Pc → Option Nat
-  | .eOrig c _ | .eDel c _ | .eMark c _ | .eBack c _ | .eNext c _ _ | .eUnl c _ _ _ => some c
+  | .eOrig c _ | .eDel c _ | .eAlloc c _ | .eCons c _ _ | .eMark c _ _ | .eBack c _ _ | .eNext c _ _ _ | .eUnl c _ _ _ _ => some c
   | _ => none
 
 structure InvG (s : St) (g : Gh) : Prop where
@@ -404,9 +404,9 @@ theorem invG_step {s s' : St} {g : Gh} {t : Tid} {e : Ev} (hx : InvX s) (hf : In
     by_cases e : c = n
     · subst e; rw [upd_same]
     · rw [upd_other _ _ _ _ e]
-  case eFixNext c orig p xx o hpc ho =>
+  case eFixNext c orig p xx z o hpc ho =>
     conv => arg 2; simp only [ghUpd, hpc]
-    have hnxs : ∀ a, (((s.setBack xx p).setPc t (.eAlloc c orig)).nodes a).next = (s.nodes a).next := by
+    have hnxs : ∀ a, (((s.setBack xx p).setPc t (.eZh orig z)).nodes a).next = (s.nodes a).next := by
       intro a
       simp only [setPc_nodes, setBack_nodes]
       by_cases e : a = xx
@@ -417,9 +417,9 @@ theorem invG_step {s s' : St} {g : Gh} {t : Tid} {e : Ev} (hx : InvX s) (hf : In
     intro o' hp
     obtain ⟨c', c1, c2⟩ := h.eret t o' (by simpa [hpc, retOf] using hp)
     exact ⟨c', c1, by rw [hnxs c']; exact c2⟩
-  case eMark c orig hpc =>
+  case eMark c orig z hpc =>
     conv => arg 2; simp only [ghUpd, hpc]
-    have hnxs : ∀ a, (((s.setDel c true).setPc t (.eBack c orig)).nodes a).next = (s.nodes a).next := by
+    have hnxs : ∀ a, (((s.setDel c true).setPc t (.eBack c orig z)).nodes a).next = (s.nodes a).next := by
       intro a
       simp only [setPc_nodes, setDel_nodes]
       by_cases e : a = c
@@ -496,20 +496,20 @@ theorem invG_step {s s' : St} {g : Gh} {t : Tid} {e : Ev} (hx : InvX s) (hf : In
       have a := (hx.i.a.wm u).1 (retOf_holds hr)
       have b := (hx.i.a.wm t).1 (by simp [hpc, holdsW])
       rw [a] at b; injection b with b; exact hut b
-  case eUnlHead c orig x o hpc ho =>
+  case eUnlHead c orig x z o hpc ho =>
     conv => arg 2; simp only [ghUpd, hpc]
     refine invG_frame (t := t) h hitv (fun y hy => Or.inl (List.mem_of_mem_erase hy)) (fun y hy => hy)
       (fun _ _ _ _ _ r => r) rfl (fun u hut => by simp [hut]) (by intro c hp; first | (simp [curNode] at hp; done) | exact h.eorig t c (by simpa [hpc, curNode] using hp)) ?_ (fun _ _ _ _ _ => rfl)
     intro o' hp
     exact h.eret t o' (by simpa [hpc, retOf] using hp)
-  case eUnlPrev c orig pp x o hpc ho =>
+  case eUnlPrev c orig pp x z o hpc ho =>
     conv => arg 2; simp only [ghUpd, hpc]
     rw [hpc] at wr; simp only [CView, WriterP, NextIs, cview_lst, cview_nodes] at wr
     obtain ⟨g1, _, _, ⟨g4, g4'⟩, g5⟩ := wr
     have hppc : pp ≠ c := fun e => not_mem_below_self hnd (e ▸ head_mem_below g4')
     have hpn : (s.nodes pp).next = some c := by rw [hnx0 pp g4]; exact g4'
     have hcx : (s.nodes c).next = x := by rw [hnx0 c g1, g5]
-    have hnxf : (fun n => ((({ (s.setNext pp x) with lst := s.lst.erase c } : St).setPc t (.eFix c orig (some pp) x)).nodes n).next) =
+    have hnxf : (fun n => ((({ (s.setNext pp x) with lst := s.lst.erase c } : St).setPc t (.eFix c orig (some pp) x z)).nodes n).next) =
         fun a => if a = pp then (s.nodes c).next else (s.nodes a).next := by
       funext a
       simp only [setPc_nodes, setNext_nodes]
